@@ -94,10 +94,12 @@ def run(ctx):
     f = ctx.work / "C03_static.v"
     f.write_text((core.COQ / "Props" / "C03.v").read_text())
     ctx.compile("Props/C03.v: promotion is order- and multiplicity-independent for lists of any length, commutative, associative under the guard, nullable iff, scalars within kind, strings isolated in promote()", f, kind="theorem")
-    # known finding replay: result_type(utf8, int32)
+    # string isolation on the observed table itself (search; the tie above is the obligation)
     for names, o in rows:
-        if names == ["utf8", "int32"] and not o.startswith("!"):
-            ctx.finding({"site": "result_type", "mixes_string": True}, "result_type(utf8,int32) returns " + o)
+        strs = {n.endswith("utf8") for n in names}
+        if len(strs) > 1 and not o.startswith("!"):
+            ctx.finding({"site": "result_type", "law": "string-isolation", "args": list(names)}, f"result_type{tuple(names)} returns {o}: a string promoted with a non-string",
+                        replay={"call": "ndonnx.result_type", "args": list(names), "observed": o})
     ctx.coverage.update({
         "rule": "exhaustive: every ordered 1/2/3-tuple of the 24 built-in dtypes through ndonnx.result_type (+ random 4..6-tuples, + arrays as arguments); every element-wise function x dtype tuple row of the T-graph table (all 576 pairs per binary function, Python scalars both orders, operators). Non-trivial = at least two operands or a function row; distinct by (function, operand tuple).",
         "exhaustive": True,
